@@ -621,7 +621,7 @@ func genG7(r rng, n int, t *testing.T) []*Scenario {
 				// library's call-out (state transition, leadership gauge, log line of a decision), and the call-out
 				// does not return before the call has got as far as it can
 				stop.At = 0
-				stop.On = r.pick2("flag:1", "trans:2", "log:6", "log:7", "log:8", "flag:0", "trans:3", "log:10", "log:2")
+				stop.On = r.pick2("flag:1", "trans:2", "log:6", "log:7", "log:8", "flag:0", "trans:3", "log:10", "log:2", "log:20", "log:23", "log:17", "log:38", "ldur")
 				stop.OnNth = r.Intn(2)
 				if r.chance(0.7) {
 					stop.SyncNs = 1
@@ -650,6 +650,30 @@ func genG8(r rng, n int, t *testing.T) []*Scenario {
 		h := r.pick(100*ms, 200*ms, 1000*ms)
 		ttl := h * r.pick(3, 4)
 		ninst := int(r.between(2, 4))
+		if r.chance(0.15) {
+			// stale news: every notification reaches the candidates a constant few seconds late, in order; the leader crashes
+			// (its record expires without any notification) while notifications of its earlier refreshes keep trickling in,
+			// less than a periodic-check interval apart
+			h = r.pick(100*ms, 200*ms)
+			ttl = h * 3
+			sc := base(r, ninst, h, ttl)
+			sc.Env = []string{"vacancy"}
+			sc.Latency = [2]int64{0, h / 20}
+			startAll(sc, r, h)
+			d := r.between(2*sec, 4*sec)
+			tv := d + r.between(0, sec)
+			sc.Rules = append(sc.Rules, Rule{Inst: "n1", FromT: tv, ToT: 1 << 60, Pre: -1, Post: -1, Fault: "err"})
+			sc.Actions = append(sc.Actions, Action{At: tv, Do: "crash", I: "n1"})
+			sc.Watch = map[string]WatchPlan{}
+			for i := 1; i < ninst; i++ {
+				sc.Watch[sc.Instances[i].ID] = WatchPlan{Only: -1, Delay: [2]int64{d, d}, Pipe: true}
+			}
+			sc.WatchDelay = [2]int64{d, d}
+			sc.Until = tv + ttl + d + 3*sec
+			sc.Grid = h
+			out = append(out, sc)
+			continue
+		}
 		sc := base(r, ninst, h, ttl)
 		sc.Env = []string{"vacancy"}
 		sc.Latency = [2]int64{0, r.pick(0, h/20, h/8)}
